@@ -29,7 +29,8 @@ RULE = ("ADMGs with 2-7 nodes (generator weighted towards sparse directed chains
         "graph of y0.examples with <= 8 nodes and the witnesses of F1/F3; a malformed stream (overlapping X and Y, nodes "
         "outside the graph, empty Y, empty X) for the error taxonomy; structured nested napkins with 2-3 levels, the same with one "
         "extra bidirected edge (refusal after nested line 7s), line 4 into several multi-node districts, and |X| <= 4, |Y| <= 4 on "
-        "6-8 nodes (gap review round 5). A case is non-trivial when the query is valid "
+        "6-8 nodes (gap review round 5); a SMALL-SCOPE EXHAUSTIVE stream: every labelled ADMG on <= 3 nodes x every valid query, "
+        "thorough also 1 in 6 of all (4-node labelled ADMG, single treatment, single outcome) pairs. A case is non-trivial when the query is valid "
         "and the run reached at least one of ID's lines 4-7.")
 ASSUMPTIONS = [
     "argument FORMS (harness/forms.py, harness/oracles/id_run.py id_slots; chosen deterministically per case, stored in the case, tagged form_*): treatments / outcomes as set / frozenset / list / tuple / dict keys / generator / iterator / map or a bare Variable for a one-element set; the Identification made by Identification(query=Query(..), graph=..) by keyword or by position, by from_parts, or by from_expression from P[X](Y) and P(Y @ X) (valid queries only); identify_outcomes positional or by keyword; 'no conditions' omitted / None / an empty set or list -- for identify_outcomes an EMPTY collection is not None and routes the query through IDC with nothing to condition on (estimand E / sum_Y E), which the model side mirrors with identify_outcomes_c and an empty condition list; the graph through every public constructor. 'Caller's objects unchanged' covers every re-iterable argument collection (one-shot iterables are consumed by definition)",
@@ -38,7 +39,7 @@ ASSUMPTIONS = [
     "`graph.topological_sort()` (networkx, on a graph rebuilt from a Python set) is a parameter `topo` of the model; the theorems assume it returns a linear extension of the directed part (trusted: networkx); the correspondence feeds the orders observed in the real run",
     "'a hedge exists => not identifiable' (Shpitser-Pearl 2006 Thm 4) IS now a theorem, `hedge_not_identifiable` in Y0/Props/C02Complete.lean (two positive models of the class Y0/Spec/Scm.lean with equal P(v) and different P_x(y)), and the clause is `id_refuses_iff_not_identifiable` / `id_ok_iff_identifiable` for every valid query with treatments inside the graph; 'identifiable' is Y0/Spec/Identifiable.lean (compatible positive discrete models with independent root latents shared only across bidirected edges, equal ranges of the observed variables, distributions compared at in-range assignments) -- non-identifiability relative to a larger model class (latents with parents, non-positive distributions) follows a fortiori, identifiability relative to a larger class does not",
 ]
-EXHAUSTIVE = {"quick": False, "thorough": False}
+EXHAUSTIVE = {"quick": False, "thorough": False}   # the `smallscope` stream IS exhaustive over every labelled ADMG on <= 3 nodes x every valid query (both tiers); the claim of the check is not bounded by it
 LEANCHECK_MODULES = ["Y0.Model.Id", "Y0.Model.IdDsl", "Y0.Props.C02"]
 CORPUS_DIR = C.VERIF / "corpus" / "C02"
 
@@ -117,6 +118,30 @@ def _cases(rng: random.Random, tier: str):
         g = R.gen_graph(rng, 6, 8)
         q = R.big_query(rng, G.all_nodes(g))
         out.append({"g": g, "X": q[0], "Y": q[1], "via": "identify" if k % 5 else "identify_outcomes", "label": "bigquery"})
+    out.extend(_small_scope(tier))
+    return out
+
+
+def _small_scope(tier):
+    """SMALL-SCOPE EXHAUSTIVE stream (session 4): EVERY labelled ADMG on 1-3 nodes (1 + 6 + 200 graphs) x EVERY valid query
+    (non-empty disjoint X, Y: 0 / 2 / 12 per graph = 2412 cases), both tiers; thorough adds every labelled ADMG on 4 nodes
+    (34752) x every single-treatment single-outcome query (12) sampled 1 in 6 by a fixed stride (69504 cases).  All of
+    these graphs have <= 5 nodes, so the brute-force hedge search decides the completeness clause on each."""
+    out = []
+    for n in (1, 2, 3):
+        for g in G.all_labelled_admgs(n):
+            for r in G.all_role_assignments(n, ("X", "Y"), ("X", "Y")):
+                out.append({"g": g, "X": r["X"], "Y": r["Y"], "via": "identify" if len(out) % 4 else "identify_outcomes",
+                            "label": "smallscope:%d" % n})
+    if tier == "thorough":
+        k = 0
+        for g in G.all_labelled_admgs(4):
+            for x in range(4):
+                for y in range(4):
+                    if x != y:
+                        k += 1
+                        if k % 6 == 0:
+                            out.append({"g": g, "X": [x], "Y": [y], "via": "identify", "label": "smallscope:4"})
     return out
 
 
